@@ -5,5 +5,6 @@ cd /repo || exit 9
 if ! git diff --quiet; then echo "repo dirty"; exit 9; fi
 if ! git apply /verif/seeded/$name/patch.diff; then echo "PATCH DOES NOT APPLY to current /repo HEAD"; exit 8; fi
 cd /verif
+rm -rf /tmp/ev.seedrun; cp -r evidence /tmp/ev.seedrun
 for c in "$@"; do echo "--- $c $tier against $name"; ./check $c $tier 2>&1 | grep -E "^(VIOLATION|OK|INCONCLUSIVE|KNOWN)|^  " | head -4 | cut -c1-400; done
-cd /repo && git checkout -- . && git status --short; git -C /verif checkout -- evidence 2>/dev/null
+cd /repo && git checkout -- . && git status --short; rm -rf /verif/evidence; mv /tmp/ev.seedrun /verif/evidence
